@@ -375,7 +375,14 @@ func newCmap6(cm tables.CmapSubtable6) cmap6or10 {
 }
 
 func newCmap10(cm tables.CmapSubtable10) cmap6or10 {
-	return cmap6or10{entries: cm.GlyphIdArray, firstCode: rune(cm.StartCharCode)}
+	// ignore the entries past the last Unicode code point (as sanitizeCmapGroups does)
+	entries := cm.GlyphIdArray
+	if cm.StartCharCode > unicode.MaxRune {
+		entries = nil
+	} else if max := int(unicode.MaxRune-cm.StartCharCode) + 1; len(entries) > max {
+		entries = entries[:max]
+	}
+	return cmap6or10{entries: entries, firstCode: rune(cm.StartCharCode)}
 }
 
 type cmap6Or10Iter struct {
